@@ -171,6 +171,10 @@ def _c04(ctx):
     out.append(s2)
     out.append(_x7(ctx, ('src/UTMUPS.cpp',), 0, 0, 1))
     out.append(_h2(ctx, ('TransverseMercator', 'PolarStereographic'), 4, 16))
+    from .rules import offsets
+    offs, noffs = offsets.rule_OFFS(ctx)
+    offs.floor('paths of UTMUPS::Forward/Reverse that project', noffs, 10)
+    out.append(offs)
     return out
 
 
